@@ -164,6 +164,9 @@ def gen_doc(rng):
                 c, m = sect()
                 ws.append(("WS %s" % c, m))
         tags.add("wrapper:%d" % len(ws))
+        if rng.random() < 0.3:
+            tags.add("full-width-wrapper")
+            return ("FullWrap [%s]" % "; ".join(c for c, _ in ws), '<mj-wrapper full-width="full-width"%s>%s</mj-wrapper>' % (rng.choice(WRAP_ATTRS), "".join(m for _, m in ws)))
         return ("Wrap [%s]" % "; ".join(c for c, _ in ws), "<mj-wrapper%s>%s</mj-wrapper>" % (rng.choice(WRAP_ATTRS), "".join(m for _, m in ws)))
     bs = [block() for _ in range(rng.choice([0, 1, 2, 3, 4, 5, 6]))]
     tags.add("blocks:%d" % len(bs))
